@@ -214,7 +214,9 @@ fn run_session(bin: &PathBuf, mode: &Mode, roots: &[History], terminals: &[Pos],
         let (text, _) = match &g.bestmove {
             Some(b) => b.clone(),
             None => {
-                acc.inconclusive.push(format!("watchdog: '{}' on {} unanswered after plan + 10 s with a live search thread ({})", g.args, pos.to_fen(), mode.name));
+                // still searching 10 s after the plan: decided by three solo re-runs after the sweep
+                slow.push(SlowCase { position_cmd: cmd.clone(), go_args: g.args.clone(), plan_ms: g.plan_ms, latency_ms: f64::INFINITY, mode: mode.name.clone() });
+                acc.count("unanswered_with_live_search_thread", 1);
                 return;
             }
         };
@@ -321,11 +323,28 @@ pub fn run(tier: Tier, seed: u64) -> i32 {
     }
     // solo confirmation of latency outliers (nothing else is running now)
     let mut outliers = Vec::new();
-    for c in slow_all.iter().take(20) {
+    // unanswered cases first (at most 3 of them, they cost 3 x (plan + 10 s) each)
+    slow_all.sort_by(|a, b| b.latency_ms.partial_cmp(&a.latency_ms).unwrap_or(std::cmp::Ordering::Equal));
+    let n_unanswered = slow_all.iter().filter(|c| c.latency_ms.is_infinite()).count();
+    let take = 20usize.min(slow_all.len());
+    let mut unanswered_done = 0;
+    for c in slow_all.iter().take(take) {
+        if c.latency_ms.is_infinite() {
+            if unanswered_done >= 3 {
+                continue;
+            }
+            unanswered_done += 1;
+        }
         let lats = solo_confirm(&plain, c);
         let all_slow = !lats.is_empty() && lats.iter().all(|l| *l > c.plan_ms as f64 + OVERHEAD_MS);
         outliers.push(json!({"position": truncate(&c.position_cmd, 120), "go": c.go_args, "plan_ms": c.plan_ms as u64, "latency_ms": c.latency_ms, "mode": c.mode, "solo_latencies_ms": lats}));
-        if all_slow {
+        if all_slow && c.latency_ms.is_infinite() {
+            run.acc.violation(
+                format!("C08|unanswered|{}|{}", c.position_cmd, c.go_args),
+                format!("'{}' after '{}' (plan {} ms) was not answered within plan + 10 s, and not in three solo re-runs on an otherwise idle machine either (the search thread keeps running)", c.go_args, truncate(&c.position_cmd, 120), c.plan_ms),
+                json!({"kind": "session", "property": "C08", "script": [c.position_cmd, c.go_args]}),
+            );
+        } else if all_slow {
             run.acc.violation(
                 format!("C08|late|{}|{}", c.position_cmd, c.go_args),
                 format!("'{}' after '{}' answered {:.0} ms after the go (plan {} ms) and in three solo re-runs {:?} ms: always more than plan + {} ms", c.go_args, truncate(&c.position_cmd, 120), c.latency_ms, c.plan_ms, lats, OVERHEAD_MS),
@@ -335,6 +354,7 @@ pub fn run(tier: Tier, seed: u64) -> i32 {
     }
     run.set("slow_outliers", json!(outliers));
     run.set("slow_outliers_total", json!(slow_all.len()));
+    run.set("unanswered_cases", json!(n_unanswered));
     run.floor_distinct = 100;
     run.finish()
 }
